@@ -81,7 +81,7 @@ def gen_case_f(rng):
     trailing = gen.trailing_shape(rng, 2)
     shape = [n] + trailing
     defx = rng.random() < 0.25
-    xs = [float(i) for i in range(n)] if defx else gen.axis_f(rng, n, rng.choice(["unit", "uniform", "geometric", "log", "ulps", "random"]))
+    xs = [float(i) for i in range(n)] if defx else gen.axis_f(rng, n, rng.choice(["unit", "uniform", "geometric", "log", "ulps", "random", "evenish"]))
     flat = [rng.uniform(-1, 1) * 10.0 ** rng.randint(-3, 6) for _ in range(gen.shape_size(shape))]
     qs = [q for q in gen.queries_f(rng, xs, 10, special=False) if xs[0] <= q <= xs[-1]]
     return shape, defx, xs, flat, qs
@@ -144,6 +144,17 @@ def generate(rng, tier):
     for _ in range(nf):
         shape, defx, xs, flat, qs = gen_case_f(rng)
         cases.append(build_line(rng, "F", shape, defx, xs, flat, qs, False))
+    # i64 elements: the crate's integer semantics (truncating slope) are not the property's real-number statement, so these cases are
+    # judged by the model correspondence only (model executed at Z64 = i64 arithmetic)
+    for _ in range(60 if tier == "quick" else 1500):
+        n = rng.choice([2, 3, 4, 6, 10])
+        shape = [n] + gen.trailing_shape(rng, 1)
+        xs = gen.axis_i(rng, n, rng.choice(["unit", "uniform", "random", "gappy", "small", "evenish"]))
+        flat = [rng.randint(-1000, 1000) for _ in range(gen.shape_size(shape))]
+        qs = [q for q in gen.queries_i(rng, xs, 8)]
+        c = build_line(rng, "I", shape, False, xs, flat, qs, False)
+        c["meta"]["int"] = True
+        cases.append(c)
     return cases
 
 
@@ -173,6 +184,8 @@ def oracle(case, res):
     want_shape = m["qshape"] + m["shape"][1:] if m["entry"] != "scalar" else []
     if res.shape != want_shape:
         return f"result shape must be {want_shape}, got {res.shape}"
+    if m.get("int"):
+        return None
     exact, br, rows = expected_exact(m)
     if case["line"].startswith("Q "):
         got = res.fractions()
